@@ -8,7 +8,7 @@ use std::collections::BTreeMap;
 
 use cairo_lang_runner::{Arg, RunResultValue};
 use num_bigint::BigInt;
-use num_integer::{Integer, Roots};
+use num_integer::Integer;
 use num_traits::{One, Signed, Zero};
 use serde_json::{Value, json};
 
@@ -548,7 +548,7 @@ impl Prop for C06 {
         let n_shards = ctx.n_shards;
         ctx.enumerate_shards(|ctx, shard| {
             let mut idx: u64 = 0;
-            let mut mine = |idx: &mut u64| -> bool {
+            let mine = |idx: &mut u64| -> bool {
                 let r = *idx % n_shards == shard;
                 *idx += 1;
                 r
@@ -612,6 +612,17 @@ impl Prop for C06 {
                             if x != y {
                                 judge(ctx, tp, y, x, false);
                             }
+                        }
+                    }
+                }
+                // Unary coverage (sqrt, not, conversions, neg depend on x only): the full boundary set
+                // against y = 1 and y = x, in both tiers.
+                if !full {
+                    let one = BigInt::one();
+                    for x in &boundary_values(t, true) {
+                        if mine(&mut idx) {
+                            judge(ctx, tp, x, &one, false);
+                            judge(ctx, tp, x, x, false);
                         }
                     }
                 }
